@@ -105,9 +105,10 @@ impl RleStr for String {
 //@   before /let \(hdr, len\) = C::try_read_unsigned\(data\)\?;/
         proof { C::dec_bounds(data@); }
 //@   after /let rest = &data\[hdr\.\.\];/
-        proof { assert(rest@ =~= data@.subrange(hdr as int, data.len() as int)); assert(rest.len() == data.len() - hdr); }
-//@   before /let s = std::str::from_utf8\(&rest\[\.\.len\]\)/
-        proof { assert(rest@.subrange(0, len as int) =~= data@.subrange(hdr as int, hdr + len)); }
+        proof {
+            assert(rest@ =~= data@.subrange(hdr as int, data.len() as int)); assert(rest.len() == data.len() - hdr);
+            if len <= rest.len() { assert(rest@.subrange(0, len as int) =~= data@.subrange(hdr as int, hdr + len)); }
+        }
 //@ end
 //@ fn rust/hexane/src/lib.rs | impl RleValue for String | unpack
 //@   before /let \(hdr, len\) = C::read_unsigned\(data\)\.unwrap\(\);/
